@@ -162,7 +162,7 @@ def reference(w, k):
     return out
 
 
-def compare_row(res, row, ref, label, fs):
+def compare_row(res, row, ref, label, fs, rt=1e-9):
     res.count("waveforms_compared")
     kdeg = ":swap-to-positive-trough" if ref["degenerate"] else ""
     for c in COLS_IDX:
@@ -188,9 +188,9 @@ def compare_row(res, row, ref, label, fs):
     # derived columns are what their names say
     if int(row["trough_time_idx"]) != int(row["peak_time_idx"]):
         exp = (row["trough_val"] - row["peak_val"]) / ((row["trough_time_idx"] - row["peak_time_idx"]) / fs)
-        res.check(np.isclose(row["repolarisation_slope"], exp, rtol=1e-9), "features:repolarisation_slope", f"{label}: repolarisation slope {row['repolarisation_slope']} vs {exp}")
+        res.check(np.isclose(row["repolarisation_slope"], exp, rtol=rt), "features:repolarisation_slope", f"{label}: repolarisation slope {row['repolarisation_slope']} vs {exp}")
     exp = (row["peak_val"] - row["tip_val"]) / ((row["peak_time_idx"] - row["tip_time_idx"]) / fs)
-    res.check(np.isclose(row["depolarisation_slope"], exp, rtol=1e-9), "features:depolarisation_slope", f"{label}: depolarisation slope {row['depolarisation_slope']} vs {exp}")
+    res.check(np.isclose(row["depolarisation_slope"], exp, rtol=rt), "features:depolarisation_slope", f"{label}: depolarisation slope {row['depolarisation_slope']} vs {exp}")
     res.check(np.isclose(row["peak_to_trough_duration"], (row["trough_time_idx"] - row["peak_time_idx"]) / fs, rtol=1e-12, atol=0), "features:peak_to_trough_duration", f"{label}")
     res.check(np.isclose(row["half_peak_duration"], (row["half_peak_post_time_idx"] - row["half_peak_pre_time_idx"]) / fs, rtol=1e-12, atol=0), "features:half_peak_duration", f"{label}")
 
@@ -203,13 +203,22 @@ def run_case(case):
     sigs = set()
     for b in range(case["n"]):
         arr, meta = batch(rng, case["cls"])
+        f32 = rng.random() < 0.3
+        if f32:                       # waveforms as the extraction saves them: single precision
+            arr = arr.astype(np.float32)
+            for i in range(arr.shape[0]):       # the cast may move the largest deflection of a waveform onto sample 0 only if it was there before; keep the domain
+                a0 = np.nan_to_num(arr[i])
+                ch0 = np.argmax(np.max(np.abs(a0), axis=0))
+                if np.argmax(np.abs(a0[:, ch0])) == 0:
+                    arr[i, 0, :] = 0
+            res.count("single_precision_batches")
         N, T, C = arr.shape
         fs = float(rng.choice([30000.0, 30000.0, 25000.0]))
         ms = 0.16
         k = int(round(ms * fs / 1000))
         if k >= T:
             continue
-        label0 = f"{case['cls']} N={N} T={T} C={C}"
+        label0 = f"{case['cls']} N={N} T={T} C={C}" + (" float32" if f32 else "")
         refs = [reference(arr[i], k) for i in range(N)]
         late = [r["trough_time_idx"] + k >= T for r in refs]
         res.count("late_trough", int(np.sum(late)))
@@ -224,7 +233,7 @@ def run_case(case):
             continue
         res.check(len(df) == N, "features:rows", f"{label0}: {len(df)} rows for {N} waveforms")
         for i in range(N):
-            compare_row(res, df.iloc[i], refs[i], f"{label0} wav {i} (polarity {meta[i][0]:+.0f})", fs)
+            compare_row(res, df.iloc[i], refs[i], f"{label0} wav {i} (polarity {meta[i][0]:+.0f})", fs, rt=1e-4 if f32 else 1e-9)
             row = df.iloc[i]
             a0 = np.nan_to_num(arr[i])
             at = a0[int(row["peak_time_idx"]), int(row["peak_trace_idx"])]
